@@ -443,6 +443,15 @@ add("e3_k8_from_reader", "", overlay="e3",
     desc="yaml::encoding::Encoder::from_reader from the library crate's MIR: the detector is given prefix.unread() where the prefix buffer was filled by io::copy(reader.by_ref().take(DETECT_LEN)) - io::copy loops until Take is exhausted, so four bytes are seen for EVERY windowing of the source - and Encoder::new gets prefix.chain(reader) with the detected encoding; a copy failure is returned as Err",
     bounds="all paths of from_reader (data-flow of the four observable calls)", functions=["yaml::encoding::Encoder::from_reader"],
     props=["C07", "C02", "C09"], timeout=300, mem_gb=4, assumptions=K_ASM[:1] + ["documented contract of std::io::copy / Read::take / Read::chain"])
+add("e3_k20_attribution", "", overlay="e3",
+    desc="error attribution of the streaming transcoder as an inductive assume-guarantee argument over stream.rs' MIR, valid at EVERY nesting depth: with error values split into REAL (made by the third-party serializer/deserializer) and SYNTHETIC (Error::custom(TRANSLATION_FAILED)), and State's three Cells modelled as heap cells, each of transcode, the 17 scalar visit_* (+forward_scalar), visit_seq, visit_map, SeqSeed/KeySeed/ValueSeed::deserialize (+Forwarder::new, serialize_with_seed, closures) and Forwarder::serialize re-establishes the interface invariant 'source = Ser and the captured error is the serializer's REAL one, or source = De and the returned error is the deserializer's REAL one' from the same invariant of the calls it makes; transcode turns it into Error::Ser(real, _) / Error::De(real); no take_parent()/unwrap() can panic; visit_seq/visit_map pass the announced length on unchanged and each scalar goes to the same-named serializer method with the same value",
+    bounds="every path of 26 functions of src/transcode/stream.rs; collections of <= 2 elements per visit_seq/visit_map step (each element uses a fresh seed, so longer collections repeat the same step); nesting depth unbounded (induction over the call structure)",
+    functions=["transcode::stream::transcode", "transcode::stream::State::{new,take_parent,capture_error,capture_child_error,error_source,into_error}", "transcode::stream::Visitor::{new,forward_scalar,visit_* x17,visit_seq,visit_map}",
+               "transcode::stream::Forwarder::{new,serialize_with_seed,serialize}", "transcode::stream::{SeqSeed,KeySeed,ValueSeed}::{new,deserialize}"],
+    props=["C11", "C12", "C04", "C01"], thorough_props=["C03"], timeout=600, mem_gb=4,
+    assumptions=K_ASM[:1] + ["third-party contract (serde conventions): a Deserializer calls at most one visit_* method per deserialize_any and returns a visitor's / seed's error unchanged, otherwise its own (REAL) error without touching the visitor; "
+                             "a collection serializer serialises the element it is handed at most once and returns the element's error unchanged, otherwise Ok or its own (REAL) error; every other Serializer method returns Ok or its own error",
+                             "Cell<T> is a heap cell identified by its term (Rust's ownership rules make distinct States distinct); Option::expect/unwrap reached with a possible None is reported as a panic"])
 add("e3_k16_yaml_binding", "", overlay="e3",
     desc="the libyaml binding's glue from the library crate's MIR. K16 Parser::new: yaml_parser_initialize -> result checked (panic, parser untouched) -> yaml_parser_set_encoding(YAML_UTF8_ENCODING) -> yaml_parser_set_input(read_handler, boxed read state holding the caller's reader, empty error stash), all on the one parser the returned value owns. K17 ParserError::new copies problem/context text and marks (problem_offset as fall-back for the problem only), LocatedError::from_parts computes line+1, column+1 and offset = index or the fall-back, and both Display impls render exactly '<text> at line L column C' / '<text> at position N' and '<problem>[, <context>]' with no other dependence on the data. K18 Parser::next_event: Ok passes through; on failure the io::Error stashed by the read handler is taken and returned, else io::Error::new(InvalidData, ParserError). K19: an Event exists iff yaml_parser_parse reported success (assume_init only then), Event::drop deletes its event once, Parser::drop deletes the parser and then frees the read state, once each",
     bounds="every path of Parser::new, ParserError::new (+closures), LocatedError::from_parts, 2 Display::fmt, Parser::next_event (+closures), Event::parse_next, Event::drop, Parser::drop; struct layouts of yaml_parser_t / yaml_mark_t read from the unsafe-libyaml sources; integers mathematical (line/column + 1 does not wrap)",
